@@ -80,8 +80,8 @@ def value_ok(agg, got, exp, n, scale, dtype):
         return False
     if agg in ("max", "min", "all", "any"):
         return g == exp
-    if agg == "median" and n % 2 == 1:
-        return g == exp
+    if agg == "median" and n % 2 == 1 and (dtype in ("float", "float32") or abs(exp) < 2 ** 53):
+        return g == exp                     # (np.median of integers is a float64 by NumPy's own definition)
     if dtype in ("int", "int32", "bool") and agg in ("sum", "prod") and abs(exp) < 2 ** 53:
         return g == exp
     tol = TOL[dtype]
@@ -745,7 +745,7 @@ def main(ck):
         "data_classes": dt_hist, "data_rank_histogram": {str(k): v for k, v in sorted(rank_hist.items())},
         "aggregations": AGGS, "destinations": ["face", "edge"],
         "model_vs_impl_comparisons": n_corr, "extraction_audit_cases": audit_n,
-        "tolerances": {"exact": "min, max, all, any; median of an odd count; sum/prod of int/bool data below 2^53",
+        "tolerances": {"exact": "min, max, all, any; median of an odd count (float data, int data below 2^53); sum/prod of int/bool data below 2^53",
                        "otherwise": "|impl - exact| <= 1e-12 * scale (float32 data: 2e-5), scale = max|x| of the "
                                     "leading row (sum: n*max|x|, var: max|x|^2, prod: |exact|); NaN/inf data: NumPy "
                                     "applied per element, NaN/inf pattern equal, finite values rel 1e-12"},
